@@ -86,6 +86,21 @@ Definition g_to_int (impl : Z) (f : gf) : Z :=
   | _ => impl
   end.
 
+(* ---- commonerrors.ConvertContextError as an ordered rule list (the list itself is generated: Gen.v) *)
+Inductive conv_test := TNil | TAny (k : ctxkind).   (* err == nil | commonerrors.Any(err, context.Canceled / DeadlineExceeded) *)
+Definition conv_holds (t : conv_test) (e : option err) : bool :=
+  match t, e with
+  | TNil, None => true
+  | TAny CtxCancel, Some (ECtx CtxCancel) | TAny CtxDeadline, Some (ECtx CtxDeadline) => true
+  | _, _ => false
+  end.
+(* if test1 { return r1 } ... return err *)
+Fixpoint conv_by_rules (rules : list (conv_test * result)) (e : option err) : result :=
+  match rules with
+  | [] => match e with None => RNil | Some x => RErr x end
+  | (t, r) :: rs => if conv_holds t e then r else conv_by_rules rs e
+  end.
+
 (* ---- the world *)
 Definition err_nonnil (e : bool) : bool := e.
 
